@@ -3,7 +3,10 @@
    model's step function: they restate the property texts over observations. *)
 From Continuum Require Import Model.Base Model.VTable Model.Backfill Model.Core Checks.Corechk.
 
+(* an entity is identified by (version table id, key): for a flat class the table id is the class
+   index; the classes of a hierarchy that share a table share the key space of that table *)
 Definition ent := (nat * pk)%type.
+Definition tabn (g : cfg) (c : nat) : nat := Z.to_nat (k_tab (cls_of g c)).
 Definition ent_eqb (a b : ent) : bool := (fst a =? fst b)%nat && pk_eqb (snd a) (snd b).
 Definition mem_ent (l : list ent) (x : ent) : bool := existsb (ent_eqb x) l.
 Definition memZ (l : list Z) (x : Z) : bool := existsb (Z.eqb x) l.
@@ -39,6 +42,8 @@ Definition spec_obj_modified (g : cfg) (o : obj_st) : bool :=
    any2 (fun r chg => spec_rel_versioned cc r && chg) (k_rels cc) (o_relchg o)).
 
 Definition find_l (live : list lrow) (c : nat) (k : pk) : option lrow := find (same_l c k) live.
+Definition find_lt (g : cfg) (live : list lrow) (t : nat) (k : pk) : option lrow :=
+  find (fun l => (tabn g (l_cls l) =? t)%nat && pk_eqb (l_key l) k) live.
 
 Definition ver_vals (cc : clscfg) (vals : list val) : list val := proj (ver_flags cc) vals.
 
@@ -65,7 +70,7 @@ Definition seg_flush (g : cfg) (sg : seg) (prev : snap) (objs : list obj_st) (en
                      (assoc : list assoc_ev) (sn : snap) : seg :=
   let vents := filter (fun e => k_versioned (cls_of g (e_cls e))) ents in
   let changed := filter (really_changed g prev) vents in
-  let eid e := (e_cls e, key_of (cls_of g (e_cls e)) (e_vals e)) in
+  let eid e := (tabn g (e_cls e), key_of (cls_of g (e_cls e)) (e_vals e)) in
   mkseg (sg_before sg)
         (sg_allowed sg ++ map eid changed)
         (sg_kinds sg ++ map (fun e => (eid e, e_kind e)) changed)
@@ -140,7 +145,7 @@ Definition C01_commit (r_blind r_switch : bool) (g : cfg) (sg : seg) (sn : snap)
   (* live entities: newest version is not a DELETE and equals the live row *)
   forallb (fun l =>
      let cc := cls_of g (l_cls l) in
-     negb (k_versioned cc) || (r_switch && mem_ent (sg_switched sg) (l_cls l, l_key l)) ||
+     negb (k_versioned cc) || (r_switch && mem_ent (sg_switched sg) (tabn g (l_cls l), l_key l)) ||
      match newest_row (sn_vt sn) (k_tab cc :: l_key l) with
      | Some r => negb (vop r =? OP_DEL) && list_eqb val_eqb (vdat r) (dat_of cc (l_vals l))
      | None => false
@@ -148,9 +153,8 @@ Definition C01_commit (r_blind r_switch : bool) (g : cfg) (sg : seg) (sn : snap)
   (* removed entities: newest version is a DELETE with the last values (or NULLs) *)
   forallb (fun r =>
      let c := tab_cls (vkey r) in
-     let cc := cls_of g c in
      let k := tl (vkey r) in
-     match find_l (sn_live sn) c k with
+     match find_lt g (sn_live sn) c k with
      | Some _ => true
      | None =>
          match newest_row (sn_vt sn) (vkey r) with
@@ -160,8 +164,8 @@ Definition C01_commit (r_blind r_switch : bool) (g : cfg) (sg : seg) (sn : snap)
              (if g_null_delete g then forallb (fun v => val_eqb v None) (vdat nr)
               else mem_ent (sg_dirtydel sg) (c, k) ||
                    negb (memZ (new_txs sg sn) (vtx nr)) ||
-                   match find_l (sg_seen sg) c k with
-                   | Some l => list_eqb val_eqb (vdat nr) (dat_of cc (l_vals l))
+                   match find_lt g (sg_seen sg) c k with
+                   | Some l => list_eqb val_eqb (vdat nr) (dat_of (cls_of g (l_cls l)) (l_vals l))
                    | None => true      (* inserted and deleted without ever being flushed live *)
                    end)
          end
@@ -238,11 +242,11 @@ Definition C11_commit (r_blind r_switch : bool) (g : cfg) (sg : seg) (sn : snap)
   (* the row of this transaction holds the entity's state as of its last flushed change *)
   forallb (fun l =>
      let cc := cls_of g (l_cls l) in
-     negb (k_versioned cc) || (r_switch && mem_ent (sg_switched sg) (l_cls l, l_key l)) ||
+     negb (k_versioned cc) || (r_switch && mem_ent (sg_switched sg) (tabn g (l_cls l), l_key l)) ||
      forallb (fun r => negb (pk_eqb (vkey r) (k_tab cc :: l_key l)) ||
                        list_eqb val_eqb (vdat r) (dat_of cc (l_vals l))) (new_rows sg sn)) (sn_live sn) &&
   (* exactly one row per entity that had a flushed change, none otherwise *)
-  forallb (fun x => (length (filter (fun r => pk_eqb (vkey r) (k_tab (cls_of g (fst x)) :: snd x))
+  forallb (fun x => (length (filter (fun r => pk_eqb (vkey r) (Z.of_nat (fst x) :: snd x))
                                     (new_rows sg sn)) =? 1)%nat) allowed &&
   forallb (fun r =>
      let x := (tab_cls (vkey r), tl (vkey r)) in
@@ -292,8 +296,8 @@ Definition C15b_prop : core_case -> bool := walk_case C15b_commit no_rb.
 Definition C17_commit (g : cfg) (sg : seg) (sn : snap) : bool :=
   negb (g_changes g) ||
   (* recorded names of a transaction = classes with a version row stamped with it; one entry each *)
-  (forallb (fun x => existsb (fun r => (vtx r =? fst x) && (tab_cls (vkey r) =? snd x)%nat) (sn_vt sn)) (sn_chg sn) &&
-   forallb (fun r => existsb (fun x => (vtx r =? fst x) && (tab_cls (vkey r) =? snd x)%nat) (sn_chg sn)) (sn_vt sn) &&
+  (forallb (fun x => existsb (fun r => (vtx r =? fst x) && (tab_cls (vkey r) =? tabn g (snd x))%nat) (sn_vt sn)) (sn_chg sn) &&
+   forallb (fun r => existsb (fun x => (vtx r =? fst x) && (tab_cls (vkey r) =? tabn g (snd x))%nat) (sn_chg sn)) (sn_vt sn) &&
    forallb (fun x => (length (filter (chg_eqb x) (sn_chg sn)) =? 1)%nat) (sn_chg sn)).
 
 Definition C17_prop : core_case -> bool := walk_case C17_commit no_rb.
@@ -307,7 +311,9 @@ Definition C13_commit (r_blind : bool) (g : cfg) (sg : seg) (sn : snap) : bool :
   (sg_modified sg || sg_manual sg || match sg_allowed sg with [] => false | _ => true end ||
    match new_txs sg sn with [] => true | _ => false end) &&
   (* stored data has exactly one value per non-excluded non-key column *)
-  forallb (fun r => (length (vdat r) =? length (filter (fun b => b) (dat_flags (cls_of g (tab_cls (vkey r))))))%nat)
+  forallb (fun r => existsb (fun cc => (Z.to_nat (k_tab cc) =? tab_cls (vkey r))%nat &&
+                                       (length (vdat r) =? length (filter (fun b => b) (dat_flags cc)))%nat)
+                            (g_classes g))
           (sn_vt sn).
 
 Definition C13_prop : core_case -> bool := walk_case (C13_commit true) no_rb.
